@@ -10,6 +10,14 @@ import (
 
 // a route wraps an expression / statement sequence that yields the payload
 // variable unchanged; P is the placeholder for the inner expression.
+// Go-side values with typed fields (not carried by the model)
+type c01role string
+type c01page struct {
+	Body  template.HTML
+	Title string
+	Role  c01role
+}
+
 type route struct {
 	pre  string // statements before the output position
 	expr string // expression in output position (uses X for the inner expression)
@@ -176,6 +184,36 @@ func init() {
 			e.rep.Evaluations++
 			if want := "[[<b>" + p + "</b>]]|[[<b>" + p + "</b>]]|[[" + p + "-" + p + "]]"; o.Class != "OK" || o.Out != want {
 				e.Violate("c01-escape", fmt.Sprintf("%s rendered %q (%s %s), want %q", c.Tmpl, o.Out, o.Class, o.Msg, want), map[string]interface{}{"case": c, "observed": o})
+			}
+		}
+		// typed struct fields, map values and slice elements (Go-side values the model does not carry):
+		// a field declared template.HTML is trusted and comes out verbatim once, a field declared as a
+		// plain or named string is escaped, wherever it is read from
+		for _, p := range payloads {
+			pg := c01page{Body: template.HTML(p), Title: p, Role: c01role(p)}
+			extra := map[string]interface{}{"pg": pg, "ppg": &pg, "pgs": []c01page{pg}, "pgm": map[string]c01page{"k": pg}, "pgi": []interface{}{pg, &pg}}
+			esc := template.HTMLEscapeString(p)
+			for _, t := range []struct{ tmpl, want string }{
+				{"[[<%= pg.Body %>]]", p}, {"[[<%= ppg.Body %>]]", p}, {"[[<%= pgs[0].Body %>]]", p}, {"[[<%= pgm[\"k\"].Body %>]]", p},
+				{"[[<%= pgi[1].Body %>]]", p}, {"<% let b = pg.Body %>[[<%= b %>]]", p}, {"[[<%= for (x) in pgs { %><%= x.Body %><% } %>]]", p},
+				{"[[<%= pg.Title %>]]", esc}, {"[[<%= ppg.Title %>]]", esc}, {"[[<%= pg.Role %>]]", "?" + esc},
+				{"[[<%= pgs[0].Role %>]]", "?" + esc}, {"<% let r = pg.Role %>[[<%= r %>]]", "?" + esc}, {"[[<%= for (x) in pgi { %><%= x.Title %><% } %>]]", esc + esc},
+			} {
+				c := RCase{Tmpl: t.tmpl}
+				o := runRenderExtra(c, extra)
+				e.rep.Evaluations++
+				e.Count("typed-field")
+				// a value of a named string type has no rule of its own in the sink: it prints as nothing
+				// today; printing it escaped would be as safe ("?" marks these)
+				if strings.HasPrefix(t.want, "?") {
+					t.want = t.want[1:]
+					if o.Class == "OK" && o.Out == "[[]]" {
+						continue
+					}
+				}
+				if o.Class != "OK" || o.Out != "[["+t.want+"]]" {
+					e.Violate("c01-escape", fmt.Sprintf("%s with payload %q rendered %q (%s %s), want %q", t.tmpl, p, o.Out, o.Class, o.Msg, "[["+t.want+"]]"), map[string]interface{}{"case": c, "payload": p, "observed": o})
+				}
 			}
 		}
 		// htmlEscape returns a plain string: escaped again by the sink (documented reading)
